@@ -66,6 +66,11 @@ Enc(v, reg, D) ==
     [] v.ty \in LeafTy /\ ~IsWrap(v) -> Leaf(Text(v), <<>>, <<>>)
     \* ---- multi-cause nodes travel as leaves with causes
     [] v.ty = "joinError" -> Leaf(IF "JoinEncodesEmptyMsg" \in D THEN <<>> ELSE Text(v), <<>>, <<>>)
+    \* (a multi-cause node that also has Cause() is a wrapper to EncodeError: UnwrapOnce finds
+    \* its first branch, the other branches do not travel)
+    [] v.ty = "uMultiCause" ->
+         LET x == ExtractPrefix(Text(v), Text(v.kids[1])) IN
+         W("wrap", x.s, fam, tn, ext, x.full, <<>>, <<>>, <<Enc(v.kids[1], reg, D)>>)
     \* (user multi-cause type registered with RegisterMultiCauseEncoder / Decoder)
     [] v.ty = "uRegMulti" -> Leaf(v.s, <<>>, <<P("String", v.s, <<>>, <<>>, <<>>)>>)
     [] v.ty \in MultiTy -> Leaf(Text(v), <<>>, <<>>)
